@@ -33,6 +33,8 @@ inductive Op where
   | fill (fd : Nat)
   | sel (fd : Nat) (forWriting : Bool)
   | tmp
+  /-- `is_executable_file(path)`; the path `[""]` is the empty path -/
+  | isx (path : List String)
 
 /-- what an operation answers -/
 inductive Obs where
@@ -60,7 +62,7 @@ def guarded (k : K) (comps : List String) : Bool :=
 def step (k : K) : Op → K × Obs
   | .open p a f m =>
     if guarded k p then (k, .err .ESCAPE) else
-    match open' k p a f m with
+    match openT k p a f m with
     | .ok fd k' => (k', .num fd)
     | .err e => (k, .err e)
   | .read fd n =>
@@ -139,6 +141,8 @@ def step (k : K) : Op → K × Obs
     match tmpfile k with
     | .ok fd k' => (k', .num fd)
     | .err e => (k, .err e)
+  | .isx p =>
+    if p != [""] && guarded k p then (k, .err .ESCAPE) else (k, .flag (isExec k p))
   | .sel fd w =>
     match (if w then writeReady k fd else readReady k fd) with
     | .ok b => (k, .flag b)
